@@ -1,4 +1,5 @@
 import NdnModel.Name
+import NdnProofs.Lemmas.NameGen
 import NdnProofs.Lemmas.TlNum
 /-! URI-level lemmas for components: decimal printing/parsing, percent escaping, hex. -/
 namespace Ndn
@@ -148,7 +149,7 @@ theorem digit_props (c : Char) (h : isAsciiDigit c = true) :
   · intro e; subst e; revert h; decide
   · intro e; subst e; revert h; decide
   · intro e; subst e; revert h; decide
-  · simp [inCharset, h]
+  · simp [inCharset_eq, h]
 
 /-! ### percent escaping -/
 
